@@ -568,12 +568,15 @@ namespace c14
     {
         using Hs = SVHist<T, N>;
         static int depth() { return N <= 2 ? (vf::thorough() ? 4 : 3) : N == 3 ? (vf::thorough() ? 3 : 2) : 2; }
-        // case = index of the first operation; the rest is enumerated inside
+        // case = (placement, first operation[, slot of the second operation when depth >= 3]); the rest is
+        // enumerated inside, so that one case stays a few thousand histories even at depth 4
+        static const int SLOTS = 64;
+        static uint64_t slots() { return depth() >= 3 ? SLOTS : 1; }
         static uint64_t count()
         {
             std::vector<Op> ops;
             Hs::gen_ops_for(0, ops, false);
-            return ops.size() * 2;
+            return ops.size() * 2 * slots();
         }
         static void rec(std::vector<Op> &prefix, int left, bool boxed, uint64_t &seqs)
         {
@@ -611,17 +614,41 @@ namespace c14
         {
             bool boxed = idx & 1;
             idx >>= 1;
-            std::vector<Op> ops;
+            uint64_t slot = idx % slots();
+            idx /= slots();
+            std::vector<Op> ops, ops2;
             Hs::gen_ops_for(0, ops, false);
             if (idx >= ops.size())
                 return;
             std::vector<Op> prefix{ops[idx]};
             uint64_t seqs = 0;
-            rec(prefix, depth() - 1, boxed, seqs);
+            if (slots() == 1)
+                rec(prefix, depth() - 1, boxed, seqs);
+            else
+            {
+                // the one-operation history itself (once), and the operations that can follow it
+                {
+                    Hs h;
+                    h.start(boxed);
+                    h.apply(ops[idx]);
+                    h.gen_ops(ops2, false);
+                    h.finish();
+                    seqs += slot == 0;
+                }
+                if (ops2.size() > (size_t)SLOTS)
+                    vf::fail("harness:enum-slots", "%zu second operations do not fit %d slots", ops2.size(), SLOTS);
+                if (slot >= ops2.size())
+                {
+                    vf::count_bulk(seqs, seqs);
+                    return;
+                }
+                prefix.push_back(ops2[slot]);
+                rec(prefix, depth() - 2, boxed, seqs);
+            }
             vf::count_bulk(seqs, seqs);
-            if (vf::want_sample() && idx == 3)
-                vf::sample("enum: %s N=%zu first op %s(%d,%d), every continuation to depth %d: %llu histories", Hs::flav().c_str(), N, SNAME[ops[idx].kind], ops[idx].a,
-                           ops[idx].b, depth(), (unsigned long long)seqs);
+            if (vf::want_sample() && idx == 3 && slot == 0)
+                vf::sample("enum: %s N=%zu first op %s(%d,%d), every continuation to depth %d", Hs::flav().c_str(), N, SNAME[ops[idx].kind], ops[idx].a,
+                           ops[idx].b, depth());
         }
     };
 
